@@ -31,6 +31,9 @@ def generate(rng, tier, shard, nshards):
             base["pre"] = [rng.choice(["agenda", "treesum", "naive", "agenda_maxiter", "treesum_tol", "agenda_tol"]) for _ in range(rng.randint(1, 2))]
             feat = feat + "+history"
         yield gops.event("addeos", dict(base, L=3), site="add_EOS", feat=feat)
+        if gi % 2 == 0:      # a caller-chosen end-of-sequence symbol (a character, a word, a token id)
+            yield gops.event("addeos", dict(base, L=3, eos=rng.choice(["u0024", "end", "<7>"])), site="add_EOS(eos=...)",
+                             feat=feat + "+custom-eos")
         if srn == "Rat" and shape == "acyclic":
             yield gops.event("normalize", dict(base, L=3), site="locally_normalize", feat=feat)
 
